@@ -137,6 +137,9 @@ def spec_post(inp, out):
 PLAIN = "abcdefghikmnopqrstuvwyz"
 
 
+LOOKALIKES = ["6U]", "6U[", "VU]", "VU[", "KU]", "KU[", "OX]", "OX[", "Ou]", "Ou[", "OU}", "OU{", "oU]", "oU["]
+
+
 class Gen:
     def __init__(self, r):
         self.r = r
@@ -157,6 +160,10 @@ class Gen:
             self.uid += 1
             ln = r.choice([0, 1, 3, 17, 100, 100, 1000, 5000, 70000])
             return mk("OU" + r.choice("jJ"), clock, jumbo=(self.uid.to_bytes(4, "little") * (ln // 4 + 1))[:ln])
+        if r.below(100) < 6:
+            # look-alikes of the region markers: another model, another category, a neighbouring value.  Only the exact
+            # OU[ / OU] open and close a region; these are ordinary events wherever they stand.
+            return mk(r.choice(LOOKALIKES), clock, self.payload())
         return mk("OU" + r.choice(PLAIN), clock, self.payload())
 
     def stream(self, tid, cpu, flaw=None, big=False):
